@@ -110,6 +110,8 @@ struct Exec {
     RunResult res;
 
     explicit Exec(int worker) : rig(worker) { }
+    // the client's destructor completes outstanding tasks, whose continuations touch members of this object
+    ~Exec() { rig.client.reset(); }
 
     void violate(const QString &key, const QString &msg) { res.violations.append(violation(QStringLiteral("C07/") + key, msg)); }
     void witness(const char *k) { res.witness[QString::fromLatin1(k)] = res.witness.value(QString::fromLatin1(k)).toInt() + 1; }
